@@ -158,3 +158,44 @@ Definition c07_known (i : c07_in) : N :=
   if lonely_slot fchain vaos then 2%N else 0%N.
 
 Definition c07_judge := judge c07_model c07_oeqb c07_ok c07_known.
+
+(* ---------- part outcome: Plugin.ValidateObservation + Plugin.Outcome ----------
+   input: phase (1 GetCommitReports: the outcome's pending reports are the merged commit reports, flattened;
+   2 GetMessages: the outcome's reports carry the merged messages of their chain), F of the reporting config, destination,
+   the home chain's fChain, the attributed observations.  output: verdicts, (commit reports by id, chain -> seq -> message) *)
+Definition c07o_in := (N * Z * N * list (N * Z) * list (N * list N * obs))%type.
+Definition c07o_out := (list bool * res (list commit * list (N * list (N * msg))))%type.
+Definition c07o_model (i : c07o_in) : c07o_out :=
+  let '(phase, bigF, dest, fchain, aos) := i in
+  let vals := map (fun a => validate (snd (fst a)) dest fchain (snd a)) aos in
+  (vals, match get_consensus bigF dest fchain (accepted vals aos) with
+         | Ok m => let '(cs, ms, _, _, _) := canon m in
+                   if N.eqb phase 1 then Ok (by_cid (flat_map snd cs), []) else Ok ([], ms)
+         | Err => Err | Panic => Panic | Spin => Spin end).
+Definition c07o_oeqb (a b : c07o_out) : bool :=
+  list_eqb Bool.eqb (fst a) (fst b) &&
+  res_eqb (fun x y => list_eqb commit_eqb (fst x) (fst y) && msgs_eq (snd x) (snd y)) (snd a) (snd b).
+(* a flattened commit report has f_k+1 distinct reporters under SOME chain key k it was filed under, and every report
+   with that support under a key is present *)
+Definition commits_flat_ok (fchain : list (N * Z)) (aos : list ao) (out : list commit) : bool :=
+  forallb (fun x => existsb (fun kf => existsb (commit_eqb x) (all_items (commits_at (fst kf)) aos) &&
+                                       N.leb (f_plus_1 (snd kf)) (support commit_eqb (commits_at (fst kf)) x aos)) fchain) out &&
+  forallb (fun kf => forallb (fun x => if N.leb (f_plus_1 (snd kf)) (support commit_eqb (commits_at (fst kf)) x aos)
+                                       then existsb (commit_eqb x) out else true)
+                             (all_items (commits_at (fst kf)) aos)) fchain.
+Definition c07o_ok (i : c07o_in) (o : c07o_out) : bool :=
+  let '(phase, bigF, dest, fchain, aos) := i in
+  let vaos := accepted (fst o) aos in
+  match snd o with
+  | Ok (cs, ms) =>
+      negb (Z.ltb (Z.of_nat (length vaos)) bigF) &&
+      (if N.eqb phase 1 then commits_flat_ok fchain vaos cs && match ms with [] => true | _ => false end
+       else msgs_ok fchain vaos ms && match cs with [] => true | _ => false end)
+  | Err => Z.ltb (Z.of_nat (length vaos)) bigF
+  | _ => false
+  end.
+Definition c07o_judge := judge c07o_model c07o_oeqb c07o_ok (fun _ => 0%N).
+
+(* ---------- part quorum: Plugin.ObservationQuorum = at least F+1 observations ---------- *)
+Definition quorum_model (i : N * Z * N) : N := let '(_, bigF, cnt) := i in if Z.leb (bigF + 1) (Z.of_N cnt) then 1%N else 0%N.
+Definition quorum_judge := judge quorum_model N.eqb (fun i o => N.eqb (quorum_model i) o) (fun _ => 0%N).
